@@ -127,6 +127,21 @@ fn check(p: &P6, st: &mut Stats) -> CheckResult {
         }
     };
     let body = Bytes::from(p.spec.expand());
+    // half of the snapshot cases: the client already holds a *longer* snapshot (whatever space the
+    // old one took must not show through the new one), taken at the previous version
+    let mut v1 = v1;
+    if p.snapshot && mode != 1 && p.reopen == (p.later % 2 == 0) {
+        let longer = Bytes::from(BytesSpec { len: p.spec.len + 1 + p.spec.len / 5 + 4096, class: (p.spec.class + 1) % case::N_CLASSES, seed: p.spec.seed ^ 0x77 }.expand());
+        match conn.call(Endpoint::AddSnapshot, c, v1, Some(&longer))? {
+            Outcome::SnapshotOk => {}
+            o => return v(format!("setting up an earlier, longer snapshot: {}", o.short())),
+        }
+        match conn.call(Endpoint::AddVersion, c, v1, Some(&small))? {
+            Outcome::Accepted { id, .. } => v1 = id,
+            o => return v(format!("setting up the next version: {}", o.short())),
+        }
+        st.label("c06:replaces-a-longer-snapshot");
+    }
     let what = format!(
         "{} of {} bytes ({}) via {:?} on {:?}, chunk sizes {:?}, {:?}",
         if p.snapshot { "snapshot" } else { "version" },
